@@ -11,6 +11,34 @@ use std::cell::Cell;
 thread_local! {
     pub static LP_CALLS: Cell<u64> = Cell::new(0);
     pub static CERTS: Cell<u64> = Cell::new(0);
+    /// centre of the box |x - c|_inf <= 1e6 inside which regions are judged (None = the origin); set per case by
+    /// generators that place their data far from the origin, reset by the runner before every case
+    static BOX_CENTER: std::cell::RefCell<Option<QVec>> = std::cell::RefCell::new(None);
+}
+
+pub fn set_box_center(c: Option<QVec>) {
+    BOX_CENTER.with(|b| *b.borrow_mut() = c);
+}
+
+fn box_rows(n: usize) -> Vec<Row> {
+    let r = Q::int(1_000_000);
+    let c: QVec = BOX_CENTER.with(|b| b.borrow().clone()).filter(|c| c.len() == n).unwrap_or_else(|| vec![Q::zero(); n]);
+    let mut out = Vec::with_capacity(2 * n);
+    for j in 0..n {
+        let mut e = vec![Q::zero(); n];
+        e[j] = Q::one();
+        out.push(Row::le(e.clone(), &c[j] + &r));
+        e[j] = Q::int(-1);
+        out.push(Row::le(e, &r - &c[j]));
+    }
+    out
+}
+
+fn in_box(x: &[Q]) -> bool {
+    let r = Q::int(1_000_000);
+    let n = x.len();
+    let c: QVec = BOX_CENTER.with(|b| b.borrow().clone()).filter(|c| c.len() == n).unwrap_or_else(|| vec![Q::zero(); n]);
+    x.iter().zip(&c).all(|(v, cj)| (v - cj).abs() < r)
 }
 
 pub const ORACLE_ERR: &str = "ORACLE-ERROR";
@@ -688,25 +716,18 @@ pub fn has_ball(rows: &[Row], n: usize, delta: &Q) -> bool {
 
 /// `full_dim` restricted to the box |x|_inf <= 1e6 (see `has_ball_boxed`).
 pub fn full_dim_boxed(rows: &[Row], n: usize) -> Option<QVec> {
-    let b = Q::int(1_000_000);
     // cheaper first: without the box rows; an interior point that happens to lie strictly inside the box
     // settles the question, no interior at all settles it too
     match full_dim(rows, n) {
         None => return None,
         Some(x) => {
-            if x.iter().all(|v| v.abs() < b) {
+            if in_box(&x) {
                 return Some(x);
             }
         }
     }
     let mut all: Vec<Row> = rows.to_vec();
-    for j in 0..n {
-        let mut e = vec![Q::zero(); n];
-        e[j] = Q::one();
-        all.push(Row::le(e.clone(), b.clone()));
-        e[j] = Q::int(-1);
-        all.push(Row::le(e, b.clone()));
-    }
+    all.extend(box_rows(n));
     full_dim(&all, n)
 }
 
@@ -716,14 +737,7 @@ pub fn full_dim_boxed(rows: &[Row], n: usize) -> Option<QVec> {
 /// library must keep / must report feasible" are made inside the box only.
 pub fn has_ball_boxed(rows: &[Row], n: usize, delta: &Q) -> bool {
     let mut all: Vec<Row> = rows.to_vec();
-    let b = Q::int(1_000_000);
-    for j in 0..n {
-        let mut e = vec![Q::zero(); n];
-        e[j] = Q::one();
-        all.push(Row::le(e.clone(), b.clone()));
-        e[j] = Q::int(-1);
-        all.push(Row::le(e, b.clone()));
-    }
+    all.extend(box_rows(n));
     has_ball(&all, n, delta)
 }
 
